@@ -1,6 +1,8 @@
 #[macro_export]
 macro_rules! std_function {
-    ($location:expr => fn $name:ident ($($arg:ident:  Value $(:: $arg_type:ident)? $(<$ot:ty>)?),*) {$($body:tt)*}) => {
+    // `fn NAME [ctx] (..)` additionally binds `ctx`, a `NativeContext`, so that the body can build
+    // runtime errors that point at one of its arguments
+    ($location:expr => fn $name:ident $([$ctx:ident])? ($($arg:ident:  Value $(:: $arg_type:ident)? $(<$ot:ty>)?),*) {$($body:tt)*}) => {
         $location.insert(
             String::from(stringify!($name)),
             (std::rc::Rc::new($crate::interpreter::NativeProcedure {
@@ -11,6 +13,13 @@ macro_rules! std_function {
                     let mut iter = args.into_iter();
                     #[allow(unused_mut)]
                     let mut __iter_toks = iter.zip(args_toks.into_iter());
+                    $(
+                        let $ctx = $crate::standard_library::NativeContext {
+                            file_path: _interpreter.get_file_path(),
+                            source: _source.clone(),
+                            spans: args_toks,
+                        };
+                    )?
 
                     $(
                         let $arg = __iter_toks.next().unwrap();
